@@ -32,7 +32,17 @@ def gen_cases(ctx, n):
         b, d = picgen.gen_picture(rng, mode, "I", w, h, quant=1 + (i * 7) % 31, sparse=sparse,
                                   stuffing_p=rng.choice([0, 0, 10, 30]))
         pad = rng.below(2)
-        cases.append((i, 0 if mode == "std" else 1, [D(b.to_bytes(pad_bit=0))]))
+        ops = [D(b.to_bytes(pad_bit=0))]
+        if i % 5 == 3:
+            # an intra picture uses no reference: it decodes the same whatever the decoder holds - here a picture of
+            # another (or, one time in four, the same) size, intra or predicted, decoded just before
+            pw, ph = (w, h) if rng.below(4) == 0 else rng.choice([(16, 16), (32, 16), (w + 16, h), (w, h + 16)])
+            if mode == "std":
+                pw, ph = max(4, (pw + 3) // 4 * 4), max(4, (ph + 3) // 4 * 4)
+            pb, _ = picgen.gen_picture(rng, mode, "I", pw, ph, quant=5, sparse=1)
+            ops = [D(pb.to_bytes(pad_bit=0))] + ops
+            d = dict(d, after_picture=(pw, ph))
+        cases.append((i, 0 if mode == "std" else 1, ops))
         descs[i] = d
     return cases, descs
 
@@ -78,7 +88,7 @@ def run(ctx):
                     hist["blocks_coded" if ev else "blocks_dc_only"] += 1
                     for e in ev:
                         hist["short_events" if e[0] == "short" else "escape_events"] += 1
-        ti = parse_tok(io[idx][0]) if io.get(idx) else {"cls": "missing", "raw": "missing"}
+        ti = parse_tok(io[idx][-1]) if io.get(idx) else {"cls": "missing", "raw": "missing"}
         same = io.get(idx) == mo.get(idx)
         # the reference reconstruction is slow in pure Python: run it on every mismatch and on a sample
         if not same or idx % (1 if thorough and idx < 3000 else 4) == 0 or cls_kind(ti["cls"]) != "ok":
@@ -86,7 +96,7 @@ def run(ctx):
             v = oracle_check(ctx, idx, d, ti)
             if v is not None:
                 ctx.violation({"kind": "intra-picture", "class_key": v.get("problem", "sample")[:30], "options": o, "ops": ops,
-                               "picture": {k: d[k] for k in ("mode", "w", "h", "quant", "tr")},
+                               "picture": {k: d.get(k) for k in ("mode", "w", "h", "quant", "tr", "after_picture")},
                                "spec": "H.263 intra reconstruction (dequantise, zig-zag, ideal IDCT, round, clip)", "implementation": v},
                               "intra picture %s %dx%d q=%d: %s" % (d["mode"], d["w"], d["h"], d["quant"], v))
                 found = True
@@ -103,7 +113,7 @@ def run(ctx):
     ctx.count("vlc-table cross-check (transcribed Tables 7, 8, 13, 14, 16 vs the trees regenerated from the source)", 1, [("tables", 5)])
     ctx.cov["rule"] = ("valid intra pictures from my encoder: every macroblock INTRA or INTRA+Q with DQUANT, INTRADC from all codes, "
                        "coefficient events in short and escape forms (8-bit; 7/11-bit for Sorenson v1), shapes one/row/column/dense, "
-                       "stuffing macroblocks, PEI bytes; non-trivial = picture accepted and byte-identical in model and implementation")
+                       "stuffing macroblocks, PEI bytes; one picture in five is decoded after another picture (usually of another size) on the same decoder; non-trivial = picture accepted and byte-identical in model and implementation")
     ctx.cov["tests_not_proofs"].append("reference reconstruction (Python, double precision) vs implementation: search oracle, a test")
     if len(broken) > 3:
         broken = broken[:3] + ["... %d more" % (len(broken) - 3)]
@@ -191,7 +201,7 @@ def replay(ctx, path):
         return 1 if p else 0
     if r.get("kind") == "intra-picture":
         io = decsuite.run_impl(ctx, "replay", [(0, r["options"], r["ops"])], full=True)
-        print("implementation:", io[0][0][:300])
+        print("implementation:", io[0][-1][:300])
         print("picture:", r["picture"], " (re-run ./check C02 with the same VERIF_SEED to re-evaluate the oracle)")
         return 1
     print("replay names broken obligations only:", r.get("names"))
